@@ -163,6 +163,10 @@ func r181(c *Ctx) {
 				c.ob(rule, key+"/confined", f.Pos(), true, false, "confined type: "+reason)
 				continue
 			}
+			if m := c.rpcReplyOf(tn); m != "" {
+				c.ob(rule, key+"/confined", f.Pos(), true, false, "confined type: reply object of RPC method CommandHandler."+m+" (net/rpc allocates one per call)")
+				continue
+			}
 			var shared []fieldAccess
 			writes := 0
 			for _, a := range c.accessesOf(f) {
@@ -297,7 +301,9 @@ func r181b(c *Ctx) {
 							if _, isB := x.Common().Value.(*ssa.Builtin); !isB {
 								// passing the container to a function: the callee must also hold the lock (checked where it uses its parameter only if it is a module function entered with the lock)
 								if sc := x.Common().StaticCallee(); sc == nil || !c.inModule(sc) || li.entryOf(sc)[lock] < modeR {
-									if calleeName(x.Common()) != "slices.Contains" {
+									// library functions that only read their argument while the call lasts (the lock is held: checked above)
+									if !map[string]bool{"slices.Contains": true, "slices.ContainsFunc": true, "slices.Index": true, "slices.IndexFunc": true, "slices.Clone": true,
+										"maps.Clone": true, "maps.Keys": false, "slices.Equal": true, "maps.Equal": true}[calleeName(x.Common())] {
 										bad = fmt.Sprintf("%s passes the container %s.%s to %s at %s", fname(fn), it.typ, it.field, calleeName(x.Common()), c.pos(r.Pos()))
 									}
 								}
@@ -591,6 +597,24 @@ func r183(c *Ctx) {
 						guarded = true
 					}
 				}
+				// X = make([]T, len(Y)) indexed by the loop variable of a range over Y (filling a pre-sized result)
+				if mk, isMk := ia.X.(*ssa.MakeSlice); isMk && !guarded {
+					if lc, isCall := mk.Len.(*ssa.Call); isCall {
+						if bi, isB := lc.Call.Value.(*ssa.Builtin); isB && bi.Name() == "len" {
+							for _, ce := range dominatingConds(b) {
+								cm, ok := ce.asCmp()
+								if !ok || cm.op != token.LSS || cm.x != ia.Index {
+									continue
+								}
+								if l2, ok := cm.y.(*ssa.Call); ok {
+									if b2, ok := l2.Call.Value.(*ssa.Builtin); ok && b2.Name() == "len" && l2.Call.Args[0] == lc.Call.Args[0] {
+										guarded = true
+									}
+								}
+							}
+						}
+					}
+				}
 				// idx = E % len(X), directly or through a field stored in this block with nothing in between that could change it
 				isMod := func(v ssa.Value) bool {
 					bo, ok := v.(*ssa.BinOp)
@@ -685,4 +709,47 @@ func r183(c *Ctx) {
 	c.joinShape(rule, "PerformConcurrently", pc, func(v ssa.Value) bool { return v == ssa.Value(pc.Params[0]) }, "fns", func(cl *ssa.Function) bool { return true }, "work")
 	// RPC handlers have no recover: a panic in a command kills the process, so the obligations above cover every command path
 	_ = fmt.Sprint
+}
+
+// rpcReplyOf: the struct type is the reply type (second parameter, by pointer) of an exported CommandHandler method with
+// the net/rpc handler signature, and is used nowhere as a field or global; returns the method's name.
+func (c *Ctx) rpcReplyOf(tn string) string {
+	nt := c.named(tn)
+	ch := c.named("CommandHandler")
+	ms := c.prog.MethodSets.MethodSet(types.NewPointer(ch))
+	found := ""
+	for i := 0; i < ms.Len(); i++ {
+		fn, ok := ms.At(i).Obj().(*types.Func)
+		if !ok || !fn.Exported() {
+			continue
+		}
+		sig := fn.Type().(*types.Signature)
+		if sig.Params().Len() != 2 || sig.Results().Len() != 1 || !isErrorType(sig.Results().At(0).Type()) {
+			continue
+		}
+		if pt, ok := sig.Params().At(1).Type().(*types.Pointer); ok && types.Identical(pt.Elem(), nt) {
+			found = fn.Name()
+		}
+	}
+	if found == "" {
+		return ""
+	}
+	// not stored anywhere shared: no struct field or package variable of the module has this type
+	for _, m := range c.server.Members {
+		switch x := m.(type) {
+		case *ssa.Global:
+			if strings.Contains(typeString(x.Type()), "."+tn) {
+				return ""
+			}
+		case *ssa.Type:
+			if st, ok := x.Type().Underlying().(*types.Struct); ok {
+				for i := 0; i < st.NumFields(); i++ {
+					if strings.Contains(typeString(st.Field(i).Type()), "."+tn) {
+						return ""
+					}
+				}
+			}
+		}
+	}
+	return found
 }
